@@ -83,9 +83,10 @@ func workerEnv(race bool, procs int) []string {
 	)
 	if race {
 		env = append(env, "GORACE=halt_on_error=1 exitcode=66")
-	} else {
-		env = append(env, "GOGC=off")
 	}
+	// no collection inside a plan (ExecPlan collects between plans): the
+	// collector's workers would take part in the scheduling order
+	env = append(env, "GOGC=off")
 	return env
 }
 
@@ -445,12 +446,19 @@ func (a *agg) add(r *simplan.Result) {
 		}
 	}
 	// deterministic sampling for the self-test: every 50th evaluation
-	if a.evals%a.detEvery() == 1 && len(a.detSample) < 40 {
+	if a.evals%a.detEvery() == 1 && len(a.detSample) < 40 || (detOverride() > 0 && len(a.detSample) < detOverride()) {
 		a.detSample = append(a.detSample, r)
 	}
 }
 
 func (a *agg) detEvery() int { return 50 }
+
+// detOverride: VERIF_DET_SAMPLES=<n> re-runs the first n plans in the determinism
+// self-test instead of the usual sample (a larger trial of the machinery itself).
+func detOverride() int {
+	n, _ := strconv.Atoi(os.Getenv("VERIF_DET_SAMPLES"))
+	return n
+}
 
 func (c *check) budget() (secs float64, maxPlans int) {
 	if c.tier == "thorough" {
@@ -674,6 +682,9 @@ func (c *check) runPart(a *agg, share float64, base uint64) partOutcome {
 		}
 		if c.tier == "thorough" {
 			lim *= 3
+		}
+		if detOverride() > 0 {
+			lim = detOverride()
 		}
 		samples := a.detSample
 		if len(samples) > lim {
